@@ -10,7 +10,7 @@ CONSTANTS
   Periods = {100}
   Statuses <- StatusesAll
   MaxOps = 7
-  MaxFaults = 2
+  MaxFaults = 1
   MaxData = 1
   IdMod = 255
   Bugs <- NoBugs
